@@ -99,6 +99,7 @@ def predict (s : Summary Nat) : String :=
   let fit := s.params.map fun p =>
     if s.fitUnknown || s.fitAbstract || s.fitWrites.contains p || !clean then "?" else "K"
   " ".intercalate [
+    "params=" ++ showNatList s.params,
     "ctor=" ++ commaOr ctor,
     "fresh=" ++ (if s.freshUnfitted && clean then "F" else "?"),
     "get=" ++ showImplNat s.getImpl,
